@@ -367,6 +367,13 @@ def jobs(tier):
                         id='Subject', time='t', obs='Biomarker', value='y',
                         dose='Amount', duration='Length')),
                     {'diffcheck': False}))
+    # more individuals than the colour palette has entries (10)
+    for f in figs:
+        out.append(('data', 'case_data', dict(
+            figure=f, ids=list(range(101, 113)),
+            layout=[['a'] if i % 3 else ['a', 'd'] for i in range(12)],
+            order='interleaved', observable='A', extra_column=False),
+            {'diffcheck': False}))
     out = [(c, f, {k_: v for k_, v in cfg.items() if v is not None}, o)
            for (c, f, cfg, o) in out]
     for f in ('PDPredictivePlot', 'PKPredictivePlot'):
@@ -429,7 +436,7 @@ def jobs(tier):
 
 
 BOUNDS = dict(
-    quick='4 figure classes; 3 individuals with every third pair of 8 row '
+    quick='4 figure classes; 12 individuals once, 3 individuals with every third pair of 8 row '
           'layouts (measurements of two observables, missing values, dose '
           'rows, dose rows that also carry a measurement), block and interleaved row order, string / integer IDs, '
           'default and custom column keys, an extra column; prediction bands '
